@@ -395,6 +395,8 @@ def check_function(repo, fn: FuncInfo, descriptor_attrs: Optional[Dict[str, Set[
                 return "shared"
         return None
 
+    from .astutil import alias_map as _alias_map
+    _aliases = _alias_map(fn.node)  # bound-method aliases: get_cached = cache.get
     stores = []
     local_stores = []
     for n in walk_local(fn.node):
@@ -425,6 +427,7 @@ def check_function(repo, fn: FuncInfo, descriptor_attrs: Optional[Dict[str, Set[
             continue
         reads = [x for x in walk_local(fn.node) if (
             (isinstance(x, ast.Call) and isinstance(x.func, ast.Attribute) and x.func.attr == "get" and norm(x.func.value) == norm(cont)) or
+            (isinstance(x, ast.Call) and isinstance(x.func, ast.Name) and x.func.id in _aliases and norm(_aliases[x.func.id]) == norm(cont) + ".get") or
             (isinstance(x, ast.Subscript) and isinstance(x.ctx, ast.Load) and norm(x.value) == norm(cont)) or
             (isinstance(x, ast.Compare) and any(isinstance(o, (ast.In, ast.NotIn)) for o in x.ops) and norm(x.comparators[0]) == norm(cont)))]
         if not reads:
@@ -520,6 +523,7 @@ def check_function(repo, fn: FuncInfo, descriptor_attrs: Optional[Dict[str, Set[
         # only treat as a memo cache if the same container is also read in this function under a key
         reads = [x for x in walk_local(fn.node) if (
             (isinstance(x, ast.Call) and isinstance(x.func, ast.Attribute) and x.func.attr == "get" and norm(x.func.value) == norm(cont)) or
+            (isinstance(x, ast.Call) and isinstance(x.func, ast.Name) and x.func.id in _aliases and norm(_aliases[x.func.id]) == norm(cont) + ".get") or
             (isinstance(x, ast.Subscript) and isinstance(x.ctx, ast.Load) and norm(x.value) == norm(cont)) or
             (isinstance(x, ast.Compare) and any(isinstance(o, (ast.In, ast.NotIn)) for o in x.ops) and norm(x.comparators[0]) == norm(cont)))]
         if not reads:
